@@ -2,7 +2,7 @@
 quoting variants; (b) model definitions x layouts from a layout grammar;
 (c) to_text round trip; (d) totality stream: noise and grammar-mutated texts."""
 import random
-from common import enc
+from common import enc, enc_rule
 import engine
 
 VALUES = ["alice", "data1", "read", "a b", "x,y", "a, b", "é", "日本", "p", "#x", "a#b", "r.sub", "1", "-", "/path/*", "k=v", ";", "[x]", "back\\slash"]
@@ -115,7 +115,7 @@ def generate(tier, seed):
     for _ in range(n_csv):
         n = rnd.randint(1, 5)
         cols = [rnd.choice(["p", "p2", "g", "g2"])] + [rnd.choice(VALUES) for _ in range(n)]
-        cases.append("csv " + enc(csv_line_variant(rnd, cols)))
+        cases.append("csvx %s %s" % (enc(csv_line_variant(rnd, cols)), enc_rule(cols)))
         dist["csv_lines"] += 1
     for v in VALUES + ["", " ", '"', 'a"b', "a\nb"]:
         cases.append("csvf " + enc(v))
@@ -161,14 +161,18 @@ def generate(tier, seed):
             cases.append("mdl " + enc(text))
             cases.append("ini " + enc(text))
             if not layout:
+                plain_text = text
                 cases.append("totext " + enc(text))
+                cases.append("tt " + enc(text))
                 dist["totext"] += 1
+            else:
+                cases.append("mdl2 %s %s" % (enc(plain_text), enc(text)))
             dist["layouts"] += 1
     # multi-section model for to_text
     ms = ("[request_definition]\nr = sub, act, obj\nr2 = sub, act\n\n[policy_definition]\np = sub, act, obj\np2 = sub, act, eft\n\n"
           "[role_definition]\ng = _, _\ng2 = _,_\n\n[policy_effect]\ne = some(where (p.eft == allow))\ne2 = !some(where (p.eft == deny))\n\n"
           "[matchers]\nm = r.sub == p.sub && g(p.act, r.act) && r.obj == p.obj\nm2 = r2.sub == p2.sub && g2(p2.act, r2.act)\n")
-    for k in ("mdl", "ini", "totext"):
+    for k in ("mdl", "ini", "totext", "tt"):
         cases.append("%s %s" % (k, enc(ms)))
     # (d) totality: noise and mutated texts
     n_noise = 300 if tier == "quick" else 6000
